@@ -311,10 +311,11 @@ struct Engine {
             for (const TS& s : frontier) {
                 for (const Event& e : Enabled(s, full)) {
                     bool ok;
+                    const u64 viol_before = res.violation_events;
                     TS n = Step(s, e, ok);
                     ++res.evaluations;
-                    if (!ok)
-                        continue;
+                    if (!ok || res.violation_events != viol_before)
+                        continue; // a violating transition is reported, not expanded (its successor may lie outside the statement's state space)
                     if (seen.size() < max_states) {
                         if (seen.insert(n).second)
                             next.push_back(n);
